@@ -1284,6 +1284,9 @@ def main(tier: str, seed: int, replay: str | None = None) -> int:
             run.inconclusive_because('generator gate table disagrees with Qiskit for %s' % g)
     run.count('gate_table_entries', len(table))
     bqskit_only_builtins()
+    import gc
+    gc.collect()
+    gc.freeze()   # fewer copy-on-write faults in the forked workers
 
     # (a) round trip: every table gate alone / wrapped / nested, then random
     rng0 = core.rng_for(seed, PID, 0)
